@@ -7,6 +7,7 @@ package main
 // subscriber that was there at the removal has been told (its channel is closed).
 
 import (
+	"sync"
 	"fmt"
 	"io/ioutil"
 	"log"
@@ -190,7 +191,8 @@ func svcPostTold(a []string) string {
 	if err != nil {
 		return "setup-error:" + err.Error()
 	}
-	srv, err := bus.StandAloneServer(l, bus.Yes{}, bus.PrivateNamespace())
+	ml := &muteListener{Listener: l}
+	srv, err := bus.StandAloneServer(ml, bus.Yes{}, bus.PrivateNamespace())
 	if err != nil {
 		return "setup-error:" + err.Error()
 	}
@@ -208,6 +210,16 @@ func svcPostTold(a []string) string {
 		return "setup-error:" + err.Error()
 	}
 	sid := svc.ServiceID()
+	// a first subscriber, on a connection of its own, that the server cannot write to any more when the object is
+	// removed (its connection is still open: the server has not seen it go) — the others are told all the same
+	rawM, err := lendDial(addr)
+	if err != nil {
+		return "setup-error:" + err.Error()
+	}
+	defer rawM.conn.Close()
+	reg0 := append(append(leBytes(4, 1), leBytes(4, 102)...), leBytes(8, 4141)...)
+	rawM.send(qnet.NewHeader(qnet.Call, sid, 1, 0, 76), reg0)
+	time.Sleep(40 * time.Millisecond)
 	// both kinds of registration are live; then the object is removed and both are told
 	rawC, err := lendDial(addr)
 	if err != nil {
@@ -247,6 +259,12 @@ func svcPostTold(a []string) string {
 	if !got(rawP, qnet.Event, 2*time.Second) {
 		return "fail:the subscriber registered with a post receives no event"
 	}
+	if !got(rawM, qnet.Event, 2*time.Second) {
+		return "fail:the first subscriber receives no event"
+	}
+	if !ml.mute(0) {
+		return "setup-error:no accepted stream to mute"
+	}
 	removed := make(chan error, 1)
 	go func() { removed <- svc.Remove(1) }()
 	select {
@@ -261,6 +279,35 @@ func svcPostTold(a []string) string {
 		return "fail:not-told the subscriber registered with a post is not told that the object is removed"
 	}
 	return "ok"
+}
+
+// muteListener hands the server streams whose writes can be made to fail while the connection stays open
+type muteListener struct {
+	qnet.Listener
+	mu      sync.Mutex
+	streams []*muteStream
+}
+
+func (l *muteListener) Accept() (qnet.Stream, error) {
+	s, err := l.Listener.Accept()
+	if err != nil {
+		return nil, err
+	}
+	ms := &muteStream{Stream: s}
+	l.mu.Lock()
+	l.streams = append(l.streams, ms)
+	l.mu.Unlock()
+	return ms, nil
+}
+
+func (l *muteListener) mute(i int) bool {
+	l.mu.Lock()
+	defer l.mu.Unlock()
+	if i >= len(l.streams) {
+		return false
+	}
+	atomic.StoreInt32(&l.streams[i].muted, 1)
+	return true
 }
 
 func init() {
